@@ -25,6 +25,14 @@ def main(ctx):
     # every valid pixel's disparity stays in the interval after refinement (incl. after a filter); stored interval == searched
     for method in ('vfit', 'quadratic'):
         J.append({'mod': 'vf.harness.c06', 'fn': 'refine_real', 'mode': 'sym', 'args': {'method': method, 'measure': 'min', 'subpix': 1, 'D': 4, 'k': 1, 'frac': 2, 'cap': cap}})
+    # ... also when the disparity was moved close to an end of the interval before the refinement, and after occlusion / mismatch filling
+    # (filled values are taken from valid pixels, hence inside the interval)
+    for method in ('vfit', 'quadratic'):
+        J.append({'mod': 'vf.harness.c06', 'fn': 'refine_real', 'mode': 'sym', 'args': {'method': method, 'measure': 'min', 'subpix': 1, 'D': 4, 'k': 2, 'frac': 3, 'cap': cap}})
+    for method in ('mc-cnn', 'sgm'):
+        J.append({'mod': 'vf.harness.c14', 'fn': 'fill', 'mode': 'sym', 'args': {'method': method, 'H': 1, 'W': 3, 'cap': cap}})
+        J.append({'mod': 'vf.harness.c14', 'fn': 'fill', 'mode': 'sym', 'args': {'method': method, 'H': 2, 'W': 2, 'cap': cap, 'prefix': [True]}})
+        J.append({'mod': 'vf.harness.c14', 'fn': 'fill', 'mode': 'sym', 'args': {'method': method, 'H': 2, 'W': 2, 'cap': cap, 'prefix': [False]}})
     for m in ('min', 'max'):      # costs outside a pixel's interval are NaN and stay NaN after the disparity step
         J.append({'mod': 'vf.harness.c03', 'fn': 'wta', 'mode': 'sym', 'args': {'R': 2, 'C': 2, 'D': 3, 'measure': m, 'cap': cap}})
     by_mod = {}
@@ -36,7 +44,8 @@ def main(ctx):
     ctx.cov['explanation'] = ('relational harness: the real matching-cost chain is run twice in one symbolic execution, for an interval I and a larger '
                               'interval J, on the same symbolic images and masks; z3 decides that the volume for I equals the slice of the volume for J '
                               '(NaN-aware, every nested pair inside the bound); per-pixel grids: measure inside each pixel interval, NaN outside; '
-                              'refinement keeps valid pixels inside the interval; the stored disparity_interval is the searched one')
+                              'refinement keeps valid pixels inside the interval (also for disparities a filter left close to an end); filled occlusions / mismatches take their '
+                              'value from valid pixels; the stored disparity_interval is the searched one')
 
 
 def replay(body):
